@@ -284,6 +284,10 @@ type KnownFinding struct {
 type KnownFile struct {
 	Findings []KnownFinding `json:"findings"`
 	Fixed    []string       `json:"fixed"`
+	// Pending: reports under triage (demonstration against the real code in progress). They are printed as
+	// PENDING-TRIAGE information and are neither violations nor known findings; an entry must be resolved into a fix,
+	// a known finding or a corrected rule.
+	Pending []KnownFinding `json:"pending_triage"`
 }
 
 type Ctx struct {
@@ -296,6 +300,7 @@ type Ctx struct {
 	Stats    map[string]any
 	curRule  string
 	known    []KnownFinding
+	pending  []KnownFinding
 	Clauses  []string
 	NotDec   string
 	Assume   []string
@@ -310,6 +315,13 @@ func (c *Ctx) CheckAt(construct, pos string, ok bool, detail string) {
 	v := "ok"
 	if !ok {
 		v = "violation"
+		for _, k := range c.pending {
+			if k.Property == c.Prop && k.Rule == c.curRule && k.Construct == construct {
+				c.Info = append(c.Info, "PENDING-TRIAGE "+c.curRule+" "+construct+" @"+pos+": "+detail)
+				fmt.Printf("PENDING-TRIAGE: property=%s rule=%s construct=%s at %s\n", c.Prop, c.curRule, construct, pos)
+				return
+			}
+		}
 		for _, k := range c.known {
 			if k.Property == c.Prop && k.Rule == c.curRule && k.Construct == construct {
 				v = "known-finding"
@@ -507,15 +519,15 @@ var props = map[string]*PropDef{}
 
 func register(pd *PropDef) { props[pd.ID] = pd }
 
-func loadKnown(verif string) []KnownFinding {
+func loadKnown(verif string) ([]KnownFinding, []KnownFinding) {
 	b, err := os.ReadFile(filepath.Join(verif, "known_findings.json"))
 	if err != nil {
-		return nil
+		return nil, nil
 	}
 	var kf KnownFile
 	if err := json.Unmarshal(b, &kf); err != nil {
 		fmt.Println("known_findings.json unreadable:", err)
 		os.Exit(2)
 	}
-	return kf.Findings
+	return kf.Findings, kf.Pending
 }
